@@ -561,6 +561,8 @@ class World(object):
             return Executors.with_timeout(ex, layer["t"], **kw)
         if k == "cos":
             return Executors.with_cancel_on_shutdown(ex, **kw)
+        if k == "asyncio":
+            return Executors.with_asyncio(ex, **kw)
         raise ValueError(layer)
 
     def policy(self, name, spec):
@@ -825,6 +827,9 @@ class World(object):
             return None
         if k == "now":
             return vsched.v_monotonic()
+        if k == "threads":
+            # library-created threads that are still alive right now
+            return sorted(t.name for t in self.s.threads if not t.client and not t.done)
         if k == "same":
             return self.futs[op[1]] is self.futs[op[2]]
         if k == "nop":
